@@ -23,7 +23,7 @@ import (
 
 	"github.com/dadrus/heimdall/internal/heimdall"
 	"github.com/dadrus/heimdall/internal/x/errorchain"
-	"github.com/dadrus/heimdall/internal/x/stringx"
+	"github.com/dadrus/heimdall/internal/x/hashx"
 )
 
 type APIKey struct {
@@ -53,9 +53,9 @@ func (c *APIKey) Apply(_ context.Context, req *http.Request) error {
 func (c *APIKey) Hash() []byte {
 	hash := sha256.New()
 
-	hash.Write(stringx.ToBytes(c.In))
-	hash.Write(stringx.ToBytes(c.Name))
-	hash.Write(stringx.ToBytes(c.Value))
+	hashx.WriteString(hash, c.In)
+	hashx.WriteString(hash, c.Name)
+	hashx.WriteString(hash, c.Value)
 
 	return hash.Sum(nil)
 }
